@@ -37,15 +37,25 @@ def witness_search(prop, violations, seed, cfg):
     if not b or b.get('error'):
         return dict(found=False, note='witness program unavailable: %s' % (b or {}).get('error', 'no replay crate'))
     names = [n for (_, _, n, _) in violations]
-    try:
-        p = subprocess.run([b['bin'], 'search', prop, str(seed)] + names, capture_output=True, text=True, timeout=600)
-        out = p.stdout.strip().split('\n')[-1] if p.stdout.strip() else ''
+    # several searches with different random seeds (2 in the quick tier, 5 in the thorough tier) before giving up
+    tries = int(os.environ.get('VERIF_WITNESS_TRIES', '2') or 2)
+    last = dict(found=False, note='no witness search run')
+    for t in range(max(1, tries)):
+        sd = int(seed) + 7919 * t
         try:
-            return json.loads(out)
-        except Exception:
-            return dict(found=False, note='witness program output not understood', raw=p.stdout[-800:] + p.stderr[-800:])
-    except Exception as e:
-        return dict(found=False, note='witness search failed: %s' % e)
+            p = subprocess.run([b['bin'], 'search', prop, str(sd)] + names, capture_output=True, text=True, timeout=600)
+            out = p.stdout.strip().split('\n')[-1] if p.stdout.strip() else ''
+            try:
+                last = json.loads(out)
+            except Exception:
+                last = dict(found=False, note='witness program output not understood', raw=p.stdout[-800:] + p.stderr[-800:])
+        except Exception as e:
+            last = dict(found=False, note='witness search failed: %s' % e)
+        if last.get('found'):
+            last['search_seed'] = sd
+            return last
+    last['searches'] = tries
+    return last
 
 
 def replay_file(path):
